@@ -130,6 +130,9 @@ type SnowflakeProxy struct {
 	ProxyType       string
 	EventDispatcher event.SnowflakeEventDispatcher
 	shutdown        chan struct{}
+	// shutdownLock orders Start creating shutdown with Stop, which is
+	// necessarily called from another goroutine, closing it
+	shutdownLock sync.Mutex
 }
 
 // Checks whether an IP address is a remote address for the client
@@ -594,7 +597,9 @@ func (sf *SnowflakeProxy) Start() error {
 	var err error
 
 	log.Println("starting")
+	sf.shutdownLock.Lock()
 	sf.shutdown = make(chan struct{})
+	sf.shutdownLock.Unlock()
 
 	// blank configurations revert to default
 	if sf.BrokerURL == "" {
@@ -681,7 +686,11 @@ func (sf *SnowflakeProxy) Start() error {
 
 // Stop closes all existing connections and shuts down the Snowflake.
 func (sf *SnowflakeProxy) Stop() {
-	close(sf.shutdown)
+	sf.shutdownLock.Lock()
+	defer sf.shutdownLock.Unlock()
+	if sf.shutdown != nil {
+		close(sf.shutdown)
+	}
 }
 
 func (sf *SnowflakeProxy) checkNATType(config webrtc.Configuration, probeURL string) {
